@@ -211,23 +211,23 @@ theorem filterKeep_inv {r : RecordM} {filter : Option String} {keep : List Bool}
           subst hfs'
           exact ⟨f, _, hp, ha, by simp, by simp⟩
 
-theorem frequencyArray_inv {r : RecordM} {tag : Option String} {vals : List (Option ℚ)} {o i : Bool}
-    (h : frequencyArray r tag = .ok (vals, o, i)) :
+theorem frequencyArray_inv {r : RecordM} {tag : Option String} {vals : List (Option ℚ)}
+    (h : frequencyArray r tag = .ok vals) :
     vals.length = r.nAlts + 1 ∧
     ((tag = none ∨ tag = some "") → vals = List.replicate (r.nAlts + 1) (some (1 / ((r.nAlts + 1 : ℕ) : ℚ)))) ∧
     (∀ t, tag = some t → t ≠ "" → ∃ f, findField r t = some f ∧ f.values = some vals) := by
   unfold frequencyArray at h
   dsimp only at h
   split at h
-  · simp only [Except.ok.injEq, Prod.mk.injEq] at h
-    obtain ⟨rfl, -, -⟩ := h
+  · simp only [Except.ok.injEq] at h
+    subst h
     exact ⟨by simp, fun _ => rfl, fun t ht => by simp at ht⟩
   · rename_i t
     split at h
     · rename_i ht
       have ht' : t = "" := by simpa using ht
-      simp only [Except.ok.injEq, Prod.mk.injEq] at h
-      obtain ⟨rfl, -, -⟩ := h
+      simp only [Except.ok.injEq] at h
+      subst h
       exact ⟨by simp, fun _ => rfl, fun t' h1 h2 => by simp only [Option.some.injEq] at h1; exact absurd (h1 ▸ ht') h2⟩
     · rename_i ht
       have ht' : t ≠ "" := by simpa using ht
@@ -242,8 +242,8 @@ theorem frequencyArray_inv {r : RecordM} {tag : Option String} {vals : List (Opt
           · split at h
             · exact absurd h (by simp)
             · rename_i hlen
-              simp only [Except.ok.injEq, Prod.mk.injEq] at h
-              obtain ⟨rfl, -, -⟩ := h
+              simp only [Except.ok.injEq] at h
+              subst h
               refine ⟨by simpa using hlen, ?_, ?_⟩
               · rintro (h1 | h1)
                 · simp at h1
@@ -253,33 +253,27 @@ theorem frequencyArray_inv {r : RecordM} {tag : Option String} {vals : List (Opt
                 subst h1
                 exact ⟨f, hf, hvs⟩
 
-theorem finishPrior_inv {keep : List Bool} {m : Bool} {vals : List (Option ℚ)} {o i : Bool}
-    {P : LocusPriorM} (h : finishPrior keep m vals o i = .ok P) :
-    P.keep = keep ∧ P.maskRef = m ∧ (select (maskedVals m vals) keep).any Option.isNone = false ∧
-    P.raw = (select (maskedVals m vals) keep).map (fun x => x.getD 0) ∧ P.freqs = normalise P.raw := by
-  unfold finishPrior at h
-  dsimp only at h
-  split at h
-  · exact absurd h (by simp)
-  · rename_i hnone
-    split at h
-    · split at h <;> exact absurd h (by simp)
-    · simp only [Except.ok.injEq] at h
-      subst h
-      exact ⟨rfl, rfl, by simpa using (Bool.not_eq_true _).mp hnone, rfl, rfl⟩
+theorem finishPrior_spec (keep : List Bool) (m : Bool) (vals : List (Option ℚ)) :
+    (finishPrior keep m vals).keep = keep ∧ (finishPrior keep m vals).maskRef = m ∧
+    (finishPrior keep m vals).nanRaw = (select (maskedVals m vals) keep).any Option.isNone ∧
+    (finishPrior keep m vals).raw = (select (maskedVals m vals) keep).map (fun x => x.getD 0) ∧
+    (finishPrior keep m vals).freqs
+      = if (finishPrior keep m vals).nanRaw then none else normalise (finishPrior keep m vals).raw :=
+  ⟨rfl, rfl, rfl, rfl, rfl⟩
 
 theorem locusPrior_inv {r : RecordM} {tag filter : Option String} {P : LocusPriorM}
     (h : locusPrior r tag filter = .ok P) :
-    ∃ keep m vals o i, filterKeep r filter = .ok (keep, m) ∧ frequencyArray r tag = .ok (vals, o, i) ∧
-      finishPrior keep m vals o i = .ok P := by
+    ∃ keep m vals, filterKeep r filter = .ok (keep, m) ∧ frequencyArray r tag = .ok vals ∧
+      P = finishPrior keep m vals := by
   unfold locusPrior at h
   split at h
   · exact absurd h (by simp)
   · rename_i keep m hk
     split at h
     · exact absurd h (by simp)
-    · rename_i vals o i hf
-      exact ⟨keep, m, vals, o, i, hk, hf, h⟩
+    · rename_i vals hf
+      simp only [Except.ok.injEq] at h
+      exact ⟨keep, m, vals, hk, hf, h.symm⟩
 
 /-! ### labels -/
 
